@@ -217,3 +217,13 @@ def c04_truncation():
     cut = T.bslice(raw, 0, t)
     hyps = T.bytes_axioms() + [n >= 1, o >= 0, o <= t, t < o + n, t <= T.blen(raw)]
     return [('a cut inside the field makes the slice short', hyps, z3.Not(o + n <= T.blen(cut)))]
+
+
+@lemma('bytes.slice_of_slice')
+def slice_of_slice():
+    """the derived axiom of theory.bytes_axioms is a consequence of the basic ones + extensionality"""
+    s = z3.Const('s', T.Bytes)
+    a, b, c, d = z3.Ints('a b c d')
+    lhs, rhs = T.bslice(T.bslice(s, a, b), c, d), T.bslice(s, a + c, a + d)
+    hyps = T.bytes_axioms(derived=False) + [T.ext_instance(lhs, rhs), 0 <= a, a <= b, b <= T.blen(s), 0 <= c, c <= d, d <= b - a]
+    return [('slice of slice', hyps, lhs == rhs)]
